@@ -62,15 +62,15 @@ def gen_budget(rng):
     return rng.weighted([(1, 5), (2, 10), (3, 15), (4, 15), (5, 10), (10, 25), (11, 5), (30, 15)]) if rng.chance(0.8) else rng.range(1, 30)
 
 
-def correspondence(chk, R, rng, n, tag, need_banks=False):
+def correspondence(chk, R, rng, n, tag, need_banks=False, gen=None):
     """stream 1 + 2 (+ 3: the Python reading of the layout invariant on every successful implementation output):
     n programs, one (budget, switches) each; need_banks: only programs with at least one #bankdef"""
     progs, icases, mcases = [], [], []
     for i in range(n):
-        p = asm2_gen.gen_prog2(rng)
+        p = (gen or asm2_gen.gen_prog2)(rng)
         while need_banks and not p.stats().get('bankdef', 0):
             p = asm2_gen.gen_prog2(rng)
-        b = gen_budget(rng)
+        b = gen_budget(rng) if gen is None else rng.choice([2, 3, 4, 10])
         s, m = rng.chance(0.5), rng.chance(0.5)
         progs.append((p, b, s, m))
         icases.append((p.text(), b, s, m))
@@ -326,6 +326,8 @@ def run_streams(chk, quick, which=("correspondence", "budgets", "layout")):
                  + assertion-constant family x budgets 1..4 (quick 250 / thorough 2.5k programs; also with "budgets")
          c09.py: run_streams(chk, quick, which=("budgets",))          quick 300 / thorough 2.5k programs x 8 budgets, x 4 switches
          c06.py: run_streams(chk, quick, which=("layout",))           quick 1k / thorough 8k programs with >= 1 #bankdef
+                 + the non-writable-bank family (quick 400 / thorough 4k programs)
+         c01.py: run_streams(chk, quick, which=("nonwritable",))      the non-writable-bank family alone
        the three streams use different forks of chk.rng, so they see different programs."""
     R = Runner2(("debug",))
     rng = chk.rng.fork("resolver2")
@@ -338,6 +340,11 @@ def run_streams(chk, quick, which=("correspondence", "budgets", "layout")):
         out["asserts_b"] = assert_constants(chk, R, rng.fork("asserts-b"), 250 if quick else 2500, "_b")
     if "layout" in which:
         out["layout"] = correspondence(chk, R, rng.fork("layout"), 1000 if quick else 8000, "_banks", need_banks=True)
+    if "nonwritable" in which or "layout" in which:
+        # banks with size / addr_end and no outp, filled up to and past their end (accept / reject, label values, spans,
+        # certificate, layout monitor); also 3 % of the general programs
+        out["nonwritable"] = correspondence(chk, R, rng.fork("nonwritable"), 400 if quick else 4000, "_nonwritable",
+                                            gen=asm2_gen.gen_nonwritable_prog)
     return out
 
 
@@ -371,6 +378,8 @@ if __name__ == "__main__":
     t3 = time.time()
     d4 = assert_constants(chk, R, rng.fork("asserts-c"), max(1, n // 8), "")
     print("assertion constants (%d programs x budgets 1..4): %s" % (max(1, n // 8), d4))
+    d5 = correspondence(chk, R, rng.fork("nonwritable"), max(1, n // 5), "_nonwritable", gen=asm2_gen.gen_nonwritable_prog)
+    print("non-writable banks (%d programs): %s" % (max(1, n // 5), d5))
     d3 = correspondence(chk, R, rng.fork("layout"), max(1, n // 2), "_banks", need_banks=True)
     t4 = time.time()
     print("layout stream (%d programs with banks) %.1fs: %s" % (max(1, n // 2), t4 - t3, d3))
